@@ -3491,7 +3491,7 @@ fn autocorrelate(
     // verified output against reference implementation
     // See: FLAC__lpc_compute_autocorrelation
 
-    debug_assert!(usize::from(max_lpc_order.get()) < MAX_LPC_COEFFS);
+    debug_assert!(usize::from(max_lpc_order.get()) <= MAX_LPC_COEFFS);
 
     let mut tail = windowed;
     // let mut autocorrelated = Vec::with_capacity(max_lpc_order.get().into());
